@@ -282,6 +282,7 @@ def run(chk: Check):
     c06.rule_p2(chk, ix, ir)
     c06.rule_p3(chk, ix, ir)
     c06.rule_p4(chk, ix, tr.interp)
+    c06.rule_p5(chk, ix)
     macros.rule_n2(chk, ix, ir)
     c09.rule_k6(chk, constfold.fold_tokenize(), ix, False)
     from .c01 import rule_lookahead_cover
